@@ -349,7 +349,7 @@ pub fn run(tier: Tier) -> i32 {
     let mut per: Vec<Value> = Vec::new();
     let mut samples: Vec<Value> = Vec::new();
     for sys in &systems {
-        let limits = BfsLimits::new(depth, tier.pick(400_000, 30_000_000), tier.pick(8, 200));
+        let limits = BfsLimits::new(depth, tier.pick(400_000, 30_000_000), tier.pick(8, (900 / systems.len().max(1) as u64).max(60)));
         let st = bfs(sys, &sys.inner.name, &limits, &report);
         println!(
             "  {}: states={} transitions={} depth_completed={} (reached {}) outcomes={} capped={:?}",
@@ -393,18 +393,35 @@ pub fn run(tier: Tier) -> i32 {
         ),
     ];
     let cdepth = tier.pick(4, 8);
-    for sys in &clusters {
-        let limits = BfsLimits::new(cdepth, tier.pick(400_000, 30_000_000), tier.pick(10, 300));
-        let st = bfs(sys, &sys.name, &limits, &report);
+    for inner in clusters {
+        // every transition is judged as before; in addition every new state is completed fairly
+        // (two orders) and the completed world is judged for agreement
+        // per-transition judgement to the full cluster depth first (cheap) ...
+        let limits = BfsLimits::new(cdepth, tier.pick(400_000, 30_000_000), tier.pick(10, 150));
+        let plain = bfs(&inner, &inner.name, &limits, &report);
+        println!("  {}: states={} transitions={} depth_completed={} capped={:?} (per-transition oracle only)", inner.name, plain.states, plain.transitions, plain.depth_completed, plain.capped);
+        plain.merge_into(&mut total);
+        let mut pj = plain.to_json();
+        pj["system"] = json!(format!("{} (per-transition oracle)", inner.name));
+        per.push(pj);
+        // ... then with fair completion of every state, one level shallower
+        let mut live = crate::cluster::LiveSys::new(inner);
+        live.safety = true;
+        let limits = BfsLimits::new(cdepth - 1, tier.pick(400_000, 30_000_000), tier.pick(30, 150));
+        let st = bfs(&live, &live.inner.name, &limits, &report);
+        let sys = &live.inner;
         println!(
-            "  {}: states={} transitions={} depth_completed={} (reached {}) outcomes={} capped={:?}",
-            sys.name, st.states, st.transitions, st.depth_completed, st.max_depth_reached, st.distinct_outcomes, st.capped
+            "  {}: states={} transitions={} depth_completed={} (reached {}) outcomes={} fair completions={} end shapes={:?} capped={:?}",
+            sys.name, st.states, st.transitions, st.depth_completed, st.max_depth_reached, st.distinct_outcomes,
+            live.completions.load(std::sync::atomic::Ordering::Relaxed), live.shapes.lock().unwrap(), st.capped
         );
         st.merge_into(&mut total);
         let mut j = st.to_json();
         j["system"] = json!(sys.name);
         j["real_nodes"] = json!(sys.nodes);
         j["stakes"] = json!(sys.epoch.stakes);
+        j["fair_completions_judged"] = json!(live.completions.load(std::sync::atomic::Ordering::Relaxed));
+        j["completed_world_shapes"] = json!(live.shapes.lock().unwrap().iter().cloned().collect::<Vec<_>>());
         per.push(j);
         samples.extend(st.samples.into_iter().take(1));
     }
